@@ -108,7 +108,14 @@ class Game:
         self.nodes.append(n)
         n['in_check'] = z3.Bool(t + '_check') if (ply in self.ext_plies and ply >= 1) else False
         n['repeated'] = z3.Bool(t + '_rep') if ply >= 1 else False
-        n['fifty'] = z3.Bool(t + '_fifty') if ply >= 1 else False
+        # half-move clock of the position: arbitrary, except that a position can only recur after at least four
+        # reversible half-moves (chess fact, stated as an assumption of the abstract game)
+        n['hmc'] = z3.BitVec(t + '_hmc', 16)
+        n['fifty'] = z3.UGE(n['hmc'], 100) if ply >= 1 else False
+        if ply >= 1:
+            self.pre.append(z3.Implies(n['repeated'], z3.UGE(n['hmc'], 4)))
+        else:
+            self.pre.append(z3.ULT(n['hmc'], 100))
         n['eval'] = z3.Int(t + '_eval') if INT_MODE[0] else z3.BitVec(t + '_eval', 16)
         self.pre.append(z3.And(n['eval'] >= -30000, n['eval'] <= 30000))
         if ply < self.height:
@@ -233,7 +240,7 @@ def install(ex, game, env):
 
     ex.override('board::Board::is_in_check', lambda ctx, bp, color: G.nodes[node_of(ctx, bp)]['in_check'])
     ex.override('board::Board::get_halfmove_clock',
-                lambda ctx, bp: ite(G.nodes[node_of(ctx, bp)]['fifty'], CI(100, 16), CI(0, 16)))
+                lambda ctx, bp: G.nodes[node_of(ctx, bp)]['hmc'])
     ex.override('board::Board::position_reached', lambda ctx, bp, key: G.nodes[node_of(ctx, bp)]['repeated'])
     ex.model(r'^<board::Board as std::clone::Clone>::clone$', lambda ctx, p: ctx.deref(p))
     ex.model(r'^<impl Evaluator as evaluate::Evaluator>::evaluate$', lambda ctx, ev, bp: G.nodes[node_of(ctx, bp)]['eval'])
